@@ -291,3 +291,70 @@ class TypedGen:
                 return False
             seen |= pre
         return True
+
+
+# ------------------------------------------------------------------ statement-clause combinations
+COMBO_SCHEMA = {
+    'ntypes': 2,
+    'ptrs': [dict(src=0, required=True, multi=False, link=None, exclusive=True),
+             dict(src=0, required=True, multi=False, link=None, exclusive=False),
+             dict(src=0, required=False, multi=True, link=1, exclusive=False),
+             dict(src=0, required=False, multi=False, link=0, exclusive=False)],
+}
+COMBO_DB = {'objs': [(1, 0), (2, 0), (3, 1)],
+            'ptrs': {(0, 1): [5], (0, 2): [6], (1, 1): [7], (1, 2): [7], (2, 1): [('o', 3)], (2, 2): [('o', 3)]}}
+
+
+def stmt_combos():
+    """Every combination of FILTER {no, true, false, equality on an exclusive property} x OFFSET {no, static 0, static beyond the size, computed 0,
+    computed beyond the size} x LIMIT {no, static 0, static 1, static 2, computed 1, computed 0} in ONE
+    `SELECT` statement over a source of each cardinality (empty / non-empty where both exist), at top level,
+    as an operand of UNION, and (text only) as a computed shape element.
+    -> list of dicts {name, term, text, pos}"""
+    plus = FN_IX['plus']
+    srcs = [
+        ('one', ('lit', 1), '1', True),
+        ('amo-empty', ('empty',), '<int64>{}', True),
+        ('amo-nonempty', ('if', ('lit', 1), ('lit', 1), ('empty',)), '(1 if true else <int64>{})', True),
+        ('alo', ('cset', (1, 2, 3)), '{1, 2, 3}', True),
+        ('many', ('if', ('cset', (1, 2, 3)), ('lit', 1), ('empty',)), '({1, 2, 3} if true else <int64>{})', True),
+        ('many-obj', ('root', 0), '(DETACHED T0)', False),
+    ]
+    offs = [('no', None, None), ('s0', ('lit', 0), '0'), ('s5', ('lit', 5), '5'),
+            ('c0', ('call', plus, (('lit', 0), ('lit', 0))), '(0 + 0)'),
+            ('c5', ('call', plus, (('lit', 5), ('lit', 0))), '(5 + 0)')]
+    lims = [('no', None, None), ('s0', 0, '0'), ('s1', 1, '1'), ('s2', 2, '2'),
+            ('c1', ('call', plus, (('lit', 1), ('lit', 0))), '(1 + 0)'),
+            ('c0', ('call', plus, (('lit', 0), ('lit', 0))), '(0 + 0)')]
+    out = []
+    eq = FN_IX['eq']
+    for sn, st, stx, is_int in srcs:
+        for fl in (False, True, 'false', 'excl'):
+            if fl == 'excl' and sn != 'many-obj':
+                continue
+            for on, ot, otx in offs:
+                for ln, lt, ltx in lims:
+                    if not fl and ot is None and lt is None:
+                        continue
+                    t, tx = st, f'select {stx}'
+                    if fl == 'excl':
+                        # equality filter on the exclusive property p0: the AT_MOST_ONE rule, then the clauses
+                        t, tx = ('filter', t, ('call', eq, (('path', ('var', 0), 0), ('lit', 5)))), tx + ' filter .p0 = 5'
+                    elif fl == 'false':
+                        t, tx = ('filter', t, ('lit', 0)), tx + ' filter false'
+                    elif fl:
+                        t, tx = ('filter', t, ('lit', 1)), tx + ' filter true'
+                    if ot is not None:
+                        t, tx = ('offset', t, ot), tx + f' offset {otx}'
+                    if lt is not None:
+                        t = ('limitc', t, lt) if isinstance(lt, int) else ('limit', t, lt)
+                        tx += f' limit {ltx}'
+                    name = f'{sn}/{"x" if fl == "excl" else "ff" if fl == "false" else "f" if fl else "-"}/off-{on}/lim-{ln}'
+                    out.append(dict(name=name + '/top', term=t, text=f'select ({tx})', pos='top'))
+                    if is_int and not fl:
+                        out.append(dict(name=name + '/operand', term=('union', t, ('empty',)),
+                                        text=f'select (({tx}) union <int64>{{}})', pos='operand'))
+                    if not fl:
+                        out.append(dict(name=name + '/shape', term=t, text=f'select T0 {{ z := ({tx}) }}',
+                                        pos='shape'))
+    return out
